@@ -60,7 +60,8 @@ RULE = (
     "spacing mean > 0 with std 0 / <= mean / 3-20 x mean, dense sub-step spacing, min_spacing_between_visits absent or in "
     "{0, 5e-4, 1e-3, 1/365, 0.01, 0.05, 0.1, 0.5, 1, 1.5, 2}; or table-driven: 1-8 individuals x 1-8 visits, str/int/unicode ids, "
     "grouped, unsorted or interleaved rows, ages closer than the rounding step, exact duplicates, integer ages, extra columns) "
-    "x seed (None or int); invalid designs = one single-point corruption of a valid case per class (negative std, non-positive "
+    "x seed (None or int) x reuse (about 1/4 of the valid cases call simulate twice with the same visit_parameters dict, or the "
+    "same AlgorithmSettings object); invalid designs = one single-point corruption of a valid case per class (negative std, non-positive "
     "patient number, wrong types, unknown visit type, negative min spacing, non-positive spacing mean and std, missing TIME column, "
     "NaN age, malformed features; and, once their exclusion flags are lifted, non-numeric std/patient number/min spacing, missing keys, "
     "absent or non-frame table, missing ID column, feature list of the wrong length, non-logistic model), drawn by Hypothesis and "
@@ -79,11 +80,13 @@ ASSUMPTIONS = [
     "Not generated (no defined answer / outside the stated domain): distance_visit_mean <= 0 < distance_visit_std (possible non-termination), "
     "spacing std > 20 x mean (heavy-tailed run time), NaN/inf design numbers, empty visit table, duplicate feature names, bool patient_number, "
     "noise_std = 0, mixed int/str ids in one table.",
+    "Reuse variant: the generator states are re-seeded identically before both calls, so the two outputs must be bit-identical; the "
+    "caller's feature list, visit_parameters dict and visit table must equal their deep copies taken before the first call.",
     "Observation point: Result.data.to_dataframe() (rows in the order the Data object reports them) and Result.individual_parameters "
     "(a table indexed by id; converted with to_dataframe() if it is an IndividualParameters object).",
 ]
 REQUIRED_CLASSES = {
-    "nontrivial": 150, "valid:random": 300, "valid:table": 200, "expect:refuse": 100,
+    "nontrivial": 150, "reused-design-object": 300, "reuse:dict": 100, "reuse:settings": 100, "valid:random": 300, "valid:table": 200, "expect:refuse": 100,
     "random:std0": 40, "random:std>>mean": 40, "random:dedup-happened": 40, "random:backward-step": 20,
     "random:single-visit-individual": 20, "msp:below-1e-3": 30, "msp:absent": 30, "msp:>=1": 30,
     "table:near-dup": 40, "table:exact-dup": 40, "table:ids-int": 30, "table:interleaved": 30, "table:unsorted": 30,
@@ -334,8 +337,10 @@ def valid_case(design_kind: str, fitted: bool = False, model=None):
         design, ex2, info = draw(random_design(m["sd"]) if dk == "random" else table_design(m["sd"]))
         fmode, feats = draw(features_for(m["features"]))
         seed = draw(st.one_of(st.none(), st.integers(0, 2**31 - 1), st.integers(0, 9)))
+        # ~1/4 of the valid cases call simulate twice with the SAME visit_parameters dict / AlgorithmSettings object
+        reuse = {0: "dict", 1: "settings"}.get(draw(st.integers(0, 7)))
         return dict(model=m, features=feats, design=design, seed=seed, pre_seed=draw(st.integers(0, 2**31 - 1)),
-                    expect="complete", info=dict(info, features=fmode), excluded=excluded + ex2)
+                    expect="complete", reuse=reuse, info=dict(info, features=fmode), excluded=excluded + ex2)
 
     return _c()
 
@@ -453,7 +458,7 @@ def apply_op(base, kind: str, op):
             d["df_as"] = "records"
         elif op[1] == "absent":
             d["df_as"] = "absent"
-    c.update(expect="refuse", invalid_kind=kind, op=op)
+    c.update(expect="refuse", invalid_kind=kind, op=op, reuse=None)
     c["info"] = dict(c.get("info") or {}, invalid=kind)
     return c
 
@@ -600,21 +605,34 @@ def install_recorder():
     SimulationAlgorithm._generate_visit_ages = wrapper
 
 
-def call_simulate(model, case):
-    """returns (result|None, exception|None, rng verdict)"""
+def build_call(case):
+    """the objects a caller would hold: feature list, visit_parameters dict (with its DataFrame) and, for reuse='settings',
+    one AlgorithmSettings object (created lazily inside the judged call)"""
+    return dict(feats=build_features(case["features"]), vp=build_visit_parameters(case["design"]), settings=None)
+
+
+def call_simulate(model, case, call=None):
+    """returns (result|None, exception|None, rng verdict); `call` (see build_call) is re-used as is when given"""
     install_recorder()
     _REC.clear()
-    feats = build_features(case["features"])
-    vp = build_visit_parameters(case["design"])
-    kw = dict(algorithm="simulate", features=feats, seed=case["seed"])
-    if vp is not None:
-        kw["visit_parameters"] = vp
+    if call is None:
+        call = build_call(case)
     seed_all(case["pre_seed"])
     s0 = rng_state()
     res = exc = None
     try:
         with quiet():
-            res = model.simulate(**kw)
+            if case.get("reuse") == "settings":
+                if call["settings"] is None:
+                    from leaspy.algo import AlgorithmSettings
+
+                    call["settings"] = AlgorithmSettings("simulate", features=call["feats"], visit_parameters=call["vp"], seed=case["seed"])
+                res = model.simulate(algorithm_settings=call["settings"])
+            else:
+                kw = dict(algorithm="simulate", features=call["feats"], seed=case["seed"])
+                if call["vp"] is not None:
+                    kw["visit_parameters"] = call["vp"]
+                res = model.simulate(**kw)
     except Exception as e:  # judged by the caller
         exc = e
     s1 = rng_state()
@@ -624,6 +642,50 @@ def call_simulate(model, case):
         sf = rng_state()
         changed = [k for k in sf if sf[k] != s1[k]]
     return res, exc, changed
+
+
+def snapshot_call(call):
+    import pandas as pd
+
+    vp = call["vp"]
+    return dict(feats=copy.deepcopy(call["feats"]),
+                vp=None if vp is None else {k: (v.copy(deep=True) if isinstance(v, pd.DataFrame) else copy.deepcopy(v)) for k, v in vp.items()})
+
+
+def call_differences(call, snap) -> list:
+    """what the callee changed in the caller's own objects (empty list = untouched)"""
+    import pandas as pd
+
+    out = []
+    if call["feats"] != snap["feats"]:
+        out.append(f"features: {snap['feats']!r} -> {call['feats']!r}")
+    vp, vp0 = call["vp"], snap["vp"]
+    if vp0 is not None:
+        for k in sorted(set(vp0) | set(vp), key=str):
+            if k not in vp:
+                out.append(f"visit_parameters[{k!r}] removed (was {vp0[k]!r})"[:200])
+            elif k not in vp0:
+                out.append(f"visit_parameters[{k!r}] added")
+            elif isinstance(vp0[k], pd.DataFrame):
+                same = isinstance(vp[k], pd.DataFrame) and list(vp[k].columns) == list(vp0[k].columns) and \
+                    list(vp[k].dtypes) == list(vp0[k].dtypes) and vp[k].equals(vp0[k]) and list(vp[k].index) == list(vp0[k].index)
+                if not same:
+                    out.append(f"visit_parameters[{k!r}] (table) modified")
+            elif type(vp[k]) is not type(vp0[k]) or vp[k] != vp0[k]:
+                out.append(f"visit_parameters[{k!r}]: {vp0[k]!r} -> {vp[k]!r}")
+    return out
+
+
+def output_key(res):
+    """exact content of a result (ids, ages, values, individual parameters) as plain floats: bit-for-bit comparison"""
+    df = res.data.to_dataframe()
+    ip = res.individual_parameters
+    if hasattr(ip, "to_dataframe") and not hasattr(ip, "columns"):
+        ip = ip.to_dataframe()
+    return dict(columns=[str(c) for c in df.columns],
+                rows=[[str(r[0])] + [float(x).hex() for x in r[1:]] for r in df.itertuples(index=False, name=None)],
+                ip_columns=[str(c) for c in ip.columns],
+                ip=[[str(i)] + [float(x).hex() for x in row] for i, row in zip(ip.index, ip.itertuples(index=False, name=None))])
 
 
 # ------------------------------------------------------------------------------------------------
@@ -644,7 +706,7 @@ def msg_key(exc) -> str:
 
 
 def case_input(case):
-    return {k: case[k] for k in ("model", "features", "design", "seed", "pre_seed", "expect") if k in case} | (
+    return {k: case[k] for k in ("model", "features", "design", "seed", "pre_seed", "expect", "reuse") if k in case} | (
         {"invalid_kind": case["invalid_kind"]} if "invalid_kind" in case else {})
 
 
@@ -656,7 +718,9 @@ def judge(col: Collector, case, model=None):
     if model is None:
         model = build_model(case["model"])
     classes = ["expect:" + case["expect"]] + model_classes(case["model"])
-    res, exc, changed = call_simulate(model, case)
+    call = build_call(case)
+    snap = snapshot_call(call)
+    res, exc, changed = call_simulate(model, case, call)
 
     if case["expect"] == "refuse":
         kind = case.get("invalid_kind", "?")
@@ -680,13 +744,40 @@ def judge(col: Collector, case, model=None):
         col.fail(sub, f"unexpected-exception:{exc_bucket(exc)}:{msg_key(exc)}", inp, observed=repr(exc)[:600],
                  expected="the design is valid: simulate completes")
         return classes, False
+    ok, nontrivial = check_output(col, case, res, inp, sub, classes)
+    if not ok or not case.get("reuse"):
+        return classes, nontrivial
 
+    # -- the same design objects serve a second call: it must complete, satisfy the same oracle, reproduce the first output
+    #    (same seed, same design) and leave the caller's objects as they were before the first call
+    sub = "valid-reuse"
+    classes += ["reused-design-object", "reuse:" + case["reuse"]]
+    key1 = output_key(res)
+    res2, exc2, _ = call_simulate(model, case, call)
+    if exc2 is not None:
+        col.fail(sub, f"second-call-failed:{exc_bucket(exc2)}:{msg_key(exc2)}", inp, observed=repr(exc2)[:600],
+                 expected="the second call with the same design object completes like the first")
+    if exc2 is None and check_output(col, case, res2, inp, sub, [])[0]:
+        key2 = output_key(res2)
+        if key2 != key1:
+            where = next((k for k in key1 if key1[k] != key2[k]), "?")
+            col.fail(sub, "second-output-differs", inp, observed=f"first difference in {where}", expected="bit-identical output for the same seed and design")
+    diff = call_differences(call, snap)
+    if diff:
+        col.fail(sub, "design-object-modified", inp, observed="; ".join(diff)[:600], expected="the caller's features / visit_parameters equal their deep copy taken before the first call")
+    return classes, nontrivial
+
+
+def check_output(col: Collector, case, res, inp, sub, classes):
+    """validity predicate over one Result; returns (holds, non-trivial). Appends output-derived classes to `classes`."""
+    design = case["design"]
+    is_random = design["visit_type"] == "random"
     df = res.data.to_dataframe()
     feats = list(case["features"])
     cols = [c for c in df.columns if c not in ("ID", "TIME")]
     if sorted(map(str, cols)) != sorted(feats):
         col.fail(sub, "feature-columns-mismatch", inp, observed=cols, expected=feats)
-        return classes, False
+        return False, False
     per = {}
     for id_, t in zip(df["ID"].tolist(), df["TIME"].tolist()):
         per.setdefault(str(id_), []).append(float(t))
@@ -695,26 +786,26 @@ def judge(col: Collector, case, model=None):
     if is_random:
         if len(per) != design["patient_number"]:
             col.fail(sub, "wrong-number-of-individuals", inp, observed=len(per), expected=design["patient_number"])
-            return classes, False
+            return False, False
     else:
         want = {str(r[0]) for r in design["rows"]}
         if set(per) != want:
             col.fail(sub, "wrong-id-set", inp, observed=sorted(per), expected=sorted(want))
-            return classes, False
+            return False, False
 
     # -- ages
     p = precision_for(design)
     for id_, ts in per.items():
         if not all(math.isfinite(t) for t in ts):
             col.fail(sub, "age-not-finite", inp, observed={id_: ts[:20]}, expected="finite ages")
-            return classes, False
+            return False, False
         if any(not (a < b) for a, b in zip(ts, ts[1:])):
             col.fail(sub, "ages-not-increasing", inp, observed={id_: ts[:20]}, expected="strictly increasing ages")
-            return classes, False
+            return False, False
         keys = [math.floor(t * 10**p + 0.5) for t in ts]
         if len(set(keys)) != len(keys):
             col.fail(sub, "ages-not-unique-at-precision", inp, observed={id_: ts[:20]}, expected=f"distinct after rounding to {p} decimals")
-            return classes, False
+            return False, False
     if not is_random:
         for id_, ts in per.items():
             got = set()
@@ -722,14 +813,14 @@ def judge(col: Collector, case, model=None):
                 k = round(t * 1000)
                 if abs(t * 1000 - k) > 1e-4:
                     col.fail(sub, "table-age-not-rounded", inp, observed={id_: t}, expected="a multiple of 1e-3")
-                    return classes, False
+                    return False, False
                 got.add(k)
             cands = [{math.floor(float(r[1]) * 1000 + 0.5 - 1e-6), math.floor(float(r[1]) * 1000 + 0.5 + 1e-6)}
                      for r in design["rows"] if str(r[0]) == id_]
             allowed = set().union(*cands)
             if not got <= allowed or any(not (c & got) for c in cands):
                 col.fail(sub, "table-ages-mismatch", inp, observed={id_: sorted(got)}, expected={id_: sorted(allowed)})
-                return classes, False
+                return False, False
 
     # -- values
     import numpy as np
@@ -737,10 +828,10 @@ def judge(col: Collector, case, model=None):
     vals = df[cols].to_numpy(dtype=float)
     if not np.isfinite(vals).all():
         col.fail(sub, "value-not-finite", inp, observed=f"{int((~np.isfinite(vals)).sum())} non-finite cells", expected="finite values")
-        return classes, False
+        return False, False
     if ((vals < 0) | (vals > 1)).any():
         col.fail(sub, "value-out-of-range", inp, observed=[float(vals.min()), float(vals.max())], expected="values within [0, 1]")
-        return classes, False
+        return False, False
     if ((vals <= 1e-6) | (vals >= 1 - 1e-6)).any():
         classes.append("values:at-boundary")
 
@@ -751,13 +842,13 @@ def judge(col: Collector, case, model=None):
     idx = [str(i) for i in ip.index]
     if len(idx) != len(set(idx)) or set(idx) != set(per):
         col.fail(sub, "params-rows-mismatch", inp, observed=idx[:30], expected=sorted(per)[:30])
-        return classes, False
+        return False, False
     m = case["model"]
     need = ["xi", "tau"] + [f"sources_{i}" for i in range(m["sd"])] + [f"w_{j}" for j in range(m["dim"])]
     missing = [c for c in need if c not in list(ip.columns)]
     if missing:
         col.fail(sub, "params-columns-missing", inp, observed=list(ip.columns), expected=need)
-        return classes, False
+        return False, False
 
     # -- classification from the recorded (pre-rounding) ages
     rec = _REC.get("ages")
@@ -773,7 +864,7 @@ def judge(col: Collector, case, model=None):
         nontrivial = multi >= 2 and design["distance_visit_std"] > 0
     else:
         nontrivial = "table:near-dup" in classes
-    return classes, bool(nontrivial)
+    return True, bool(nontrivial)
 
 
 def model_classes(m):
@@ -917,8 +1008,8 @@ def _case(model, design, features=None, seed=0, expect="complete", **kw):
 
 
 def grid_bases():
-    return [_case(_m(3, 2), _RANDOM, seed=0), _case(_m(2, 1), _RANDOM, seed=None),
-            _case(_m(3, 2), _TABLE, seed=7), _case(_m(2, 1), _TABLE, seed=None)]
+    return [_case(_m(3, 2), _RANDOM, seed=0, reuse="dict"), _case(_m(2, 1), _RANDOM, seed=None, reuse="settings"),
+            _case(_m(3, 2), _TABLE, seed=7, reuse="settings"), _case(_m(2, 1), _TABLE, seed=None, reuse="dict")]
 
 
 def shard_invalid_grid(shard: int = 0):
